@@ -73,13 +73,15 @@ def model_check(name, case, rec):
     rng = np.random.default_rng(case["F"]["fseed"])
     batch = tuple(case["F"]["batch"])
     lam = e["lam"]
-    F = gmat.make_F(rng, batch, lam, sep=True)
+    Qc = gmat.coaxial_Q(case["F"], batch) if e["nstate"] else None
+    F = gmat.make_F(rng, batch, lam, sep=True, Q=Qc)
     _NB[0] = 2
     sv0 = gmat.virgin_state(name, batch)
     sv = sv0
     hist = case["F"]["hist"] if e["nstate"] else []
     if e["nstate"]:
-        sv = gmat.drive_history(name, um, sv0, F, hist, batch, lam)
+        sv = gmat.drive_history(name, um, sv0, F, hist, batch, lam, Q=Qc)
+        rec.label("coaxial-history" if Qc is not None and hist else "general-history" if hist else "no-history")
         rec.label("non-virgin-state" if hist and not np.array_equal(sv, sv0) else "virgin-state")
     J = np.linalg.det(np.moveaxis(F, (0, 1), (-2, -1)))
     rec.nontrivial = bool(np.abs(F - np.eye(3).reshape(3, 3, 1, 1)).max() >= 0.05 and np.abs(J - 1).max() > 1e-3)
@@ -115,6 +117,17 @@ def model_check(name, case, rec):
     if e["nstate"]:
         tag = "@history" if not np.array_equal(sv, sv0) else "@virgin"
     rec.close("A=dP/dF" + tag, float(np.abs(np.broadcast_to(A, Afd.shape) - Afd).max()) / sc, tol, {"params": case["params"]})
+    if Qc is not None and tag == "@history":
+        # coaxial history: directional derivatives along the three stretch directions (the perturbed states stay coaxial)
+        Ab = np.broadcast_to(A, (3, 3, 3, 3) + batch)
+        worst = 0.0
+        for k in range(3):
+            qq = np.stack([np.outer(Qc[i][:, k], Qc[i][:, k]) for i in range(len(Qc))], -1).reshape((3, 3) + batch)
+            dF = np.einsum("ij...,jk...->ik...", F, qq)
+            h = 1e-6
+            dP = (P_of(F + h * dF) - P_of(F - h * dF)) / (2 * h)
+            worst = max(worst, float(np.abs(np.einsum("ijkl...,kl...->ij...", Ab, dF) - dP).max()) / sc)
+        rec.close("A:dF=dP[dF] along the principal stretches@history-coaxial", worst, tol, {"params": case["params"]})
     if e["energy"]:
         W = lambda F_: gmat.energy(name, case["params"], F_, sv_in)  # noqa
         Pfd = fd(W, F, h=1e-5)
